@@ -74,6 +74,10 @@ var mutations = map[string]mutation{
 	"c19-item-reverse":         one("C19", "kmipserver/router.go", "return exec.biMiddlewares[m](chain(m+1), ctx, bi)", "return exec.biMiddlewares[len(exec.biMiddlewares)-1-m](chain(m+1), ctx, bi)"),
 	// C20
 	"c20-clear-keeps-version": one("C20", "ttlv/encoder.go", "\tenc.extension.version = nil\n", ""),
+	"c20-plain-map-tag-memo": {"C20", []edit{
+		{"ttlv/encoder.go", "\t\ttag, err := getTagForValue(reflect.ValueOf(value))\n\t\tif err != nil {\n\t\t\tpanic(err)\n\t\t}\n\t\tenc.TagAny(tag, value)", "\t\tdefaultTagsMu.Lock()\n\t\ttag, ok := defaultTags[reflect.TypeOf(value)]\n\t\tdefaultTagsMu.Unlock()\n\t\tif !ok {\n\t\t\tvar err error\n\t\t\ttag, err = getTagForValue(reflect.ValueOf(value))\n\t\t\tif err != nil {\n\t\t\t\tpanic(err)\n\t\t\t}\n\t\t\tdefaultTagsMu.Lock()\n\t\t\tdefaultTags[reflect.TypeOf(value)] = tag\n\t\t\tdefaultTagsMu.Unlock()\n\t\t}\n\t\tenc.TagAny(tag, value)"},
+		{"ttlv/encoder.go", "var encodeFuncsCache = new(sync.Map)\n", "var encodeFuncsCache = new(sync.Map)\n\nvar (\n\tdefaultTags   = map[reflect.Type]int{}\n\tdefaultTagsMu sync.Mutex\n)\n"},
+	}},
 	"c20-cache-by-name": {"C20", []edit{
 		{"ttlv/encoder.go", "if f, ok := encodeFuncsCache.Load(ty); ok {", "if f, ok := encodeFuncsCache.Load(ty.Kind().String() + ty.Name()); ok {"},
 		{"ttlv/encoder.go", "encodeFuncsCache.Store(ty, f)", "encodeFuncsCache.Store(ty.Kind().String()+ty.Name(), f)"},
